@@ -152,3 +152,140 @@ def rule_R24_clear(ctx, rep, config="c-lib", tag=""):
 
 def rule_R24_clear_cxx(ctx, rep, config="cxx-lib"):
     rule_R24_clear(ctx, rep, config="cxx-lib", tag="[c++] ")
+
+
+def rule_R24_tomb(ctx, rep, config="c-lib", tag=""):
+    rep.rule("R24-tomb", "open addressing with double hashing: probe sequences of other elements pass through any entry, so the removal of an element leaves the DELETED "
+                         "mark and never the EMPTY mark (an EMPTY entry ends the probe sequence of every element that was stored behind it): every store through the entry "
+                         "pointer in the remove operation stores the constant DELETED_ENTRY, unconditionally")
+    p = ctx.prog(config)
+    fs = [f for f in p.m.defined() if f.module and f.module.startswith("hashtab.")
+          and (f.name == "remove_element_from_hash_table_entry" or f.d.get("srcname") == "remove_element_from_entry")]
+    if len(fs) != 1:
+        raise AnalysisBroken("R24-tomb: %d candidates for the remove operation" % len(fs))
+    f = fs[0]
+    rep.cover(p, [f.name])
+    sts = []
+    for s_ in f.all_insts():
+        if s_.op != "store":
+            continue
+        pa = resolve_addr(f, s_.ops[1])
+        if pa.root[0] in ("a", "val") and not pa.fields() and pa.root[0] != "alloca":
+            # not a field of the table object: the entry (the result of the lookup, or a pointer parameter)
+            sts.append(s_)
+    if not sts:
+        raise AnalysisBroken("R24-tomb: no store through the entry pointer in %s" % f.name)
+    bad = None
+    for s_ in sts:
+        v = s_.ops[0]
+        is_del = v.get("k") == "ce" and v.get("op") == "inttoptr" and const_int(v["ops"][0]) == 1
+        if not is_del:
+            bad = (s_, "stores a value other than DELETED_ENTRY (%s)" % ("EMPTY_ENTRY" if strip_casts(f, v).get("k") == "null" else "not a constant"))
+    # unconditional: the block of the DELETED store post-dominates the entry (asserts aside, the function is straight-line)
+    if bad is None:
+        from .r5 import _controlling_conditions
+        for s_ in sts:
+            cs = [c for (c, pol) in _controlling_conditions(f, s_.block.name)]
+            if cs:
+                bad = (s_, "marks the entry under a condition (%s)" % cs[0].where())
+    key = tag + f.name + "/removal-leaves-tombstone"
+    if bad:
+        rep.violation("R24-tomb", key, "the remove operation %s: elements whose probe sequence passes through this entry are no longer found, a later insertion duplicates "
+                      "them" % bad[1], where=bad[0].where(), witness=[bad[0].where()])
+    else:
+        rep.ok("R24-tomb", key, sample={"stores": [s_.where() for s_ in sts]})
+    rep.floor("R24-tomb", tag + "stores through the entry pointer of the remove operation", len(sts), 1)
+
+
+def rule_R24_tomb_cxx(ctx, rep, config="cxx-lib"):
+    rule_R24_tomb(ctx, rep, config="cxx-lib", tag="[c++] ")
+
+
+def _shape(f, op, seg, depth=0):
+    """canonical text of an address computation over the segment pointer (the values whose ids are in `seg' print as SEG)"""
+    k = const_int(op)
+    if k is not None:
+        return str(k)
+    if op.get("k") == "null":
+        return "0"
+    i = f.inst(op)
+    if i is None or depth > 12:
+        return "?%s" % (op.get("k"),)
+    if i.id in seg:
+        return "SEG"
+    if i.op in ("bitcast", "ptrtoint", "inttoptr", "zext", "sext", "trunc"):
+        return _shape(f, i.ops[0], seg, depth + 1)
+    if i.op == "load":
+        lp = loaded_from(f, op)
+        if lp is not None and (lp.last_field() or "").endswith("os_current_segment"):
+            return "SEG"
+        return "load(%s)" % (lp.last_field() if lp is not None else "?")
+    if i.op == "getelementptr":
+        parts = []
+        for st in i.d["path"]:
+            if "f" in st:
+                parts.append("." + st["f"])
+            elif "idx" in st:
+                parts.append("[%s]" % _shape(f, st["idx"], seg, depth + 1))
+            elif "ptr" in st:
+                parts.append("+%s*%s" % (_shape(f, st["ptr"], seg, depth + 1), st.get("eltsize")))
+        parts = [x for x in parts if x != "[0]"]
+        return _shape(f, i.d["base"], seg, depth + 1) + "".join(parts)
+    if i.op in ("add", "sub", "mul", "udiv", "sdiv", "and", "or", "shl", "lshr"):
+        return "%s(%s,%s)" % (i.op, _shape(f, i.ops[0], seg, depth + 1), _shape(f, i.ops[1], seg, depth + 1))
+    return "%s#%d" % (i.op, i.id)
+
+
+def rule_R24_sole(ctx, rep, config="c-lib", tag=""):
+    rep.rule("R24-sole", "_OS_expand_memory releases the current segment only when the top object is the segment's first object: the release is controlled by an "
+                         "equality of os_top_object_start with the address of the first object of os_current_segment, computed exactly as the function computes the "
+                         "first object's address in the segment it creates (same alignment arithmetic over the segment pointer) -- otherwise a segment that still holds "
+                         "finished objects is released")
+    from .r5 import _controlling_conditions
+    p = ctx.prog(config)
+    fs = [f for f in p.m.defined() if f.module and f.module.startswith("objstack.") and (f.name == "_OS_expand_memory" or f.d.get("srcname") == "_OS_expand_memory")]
+    if len(fs) != 1:
+        raise AnalysisBroken("R24-sole: %d candidates for _OS_expand_memory" % len(fs))
+    f = fs[0]
+    rep.cover(p, [f.name])
+    rel = []
+    for c in f.calls():
+        g = p.m.functions.get(c.callee or "")
+        nm = (g.d.get("srcname") if g is not None else None) or (c.callee or "")
+        if nm in ("yaep_free", "free") or (c.callee or "") in ("_ZdlPv",):
+            for a in c.args:
+                lp = loaded_from(f, a)
+                if lp is not None and (lp.last_field() or "").endswith("os_current_segment"):
+                    rel.append(c)
+    if len(rel) != 1:
+        raise AnalysisBroken("R24-sole: %d releases of the current segment in %s" % (len(rel), f.name))
+    c = rel[0]
+    new_start = [s_ for s_ in f.all_insts() if s_.op == "store" and (resolve_addr(f, s_.ops[1]).last_field() or "").endswith("os_top_object_start")]
+    news = [i for i in f.calls() if (i.callee or "") in ("yaep_malloc", "_Znwm") or ((p.m.functions.get(i.callee or "") is not None) and p.m.functions[i.callee].d.get("srcname") == "yaep_malloc")]
+    if len(new_start) != 1 or len(news) != 1:
+        raise AnalysisBroken("R24-sole: %d stores of os_top_object_start, %d segment allocations" % (len(new_start), len(news)))
+    seg_new = set([news[0].id] + [u.id for u in f.uses().get(news[0].id, []) if u.op == "bitcast"])
+    want = _shape(f, new_start[0].ops[0], seg_new)
+    key = tag + f.name + "/segment-released-only-when-sole-object"
+    good = None
+    seen = []
+    for (cc, pol) in _controlling_conditions(f, c.block.name):
+        sides = []
+        for o in cc.ops:
+            lp = loaded_from(f, o)
+            sides.append("TOP" if (lp is not None and (lp.last_field() or "").endswith("os_top_object_start")) else _shape(f, o, set()))
+        seen.append("%s %s %s%s" % (sides[0], cc.d["pred"], sides[1], "" if pol else " (false)"))
+        if "TOP" in sides and cc.d["pred"] == "eq" and pol and want in sides:
+            good = cc
+        if "TOP" in sides and cc.d["pred"] == "ne" and not pol and want in sides:
+            good = cc
+    if good is not None and "SEG" in want:
+        rep.ok("R24-sole", key, sample={"release": c.where(), "test": good.where(), "first_object": want})
+    else:
+        rep.violation("R24-sole", key, "the current segment is released under `%s', which is not `os_top_object_start == %s' (the address of the first object of a "
+                      "segment as this function lays it out): a segment whose first, finished object is shorter than the slack of the test is released while the object "
+                      "is still in use" % ("; ".join(seen) or "no condition", want), where=c.where(), witness=[c.where()])
+
+
+def rule_R24_sole_cxx(ctx, rep, config="cxx-lib"):
+    rule_R24_sole(ctx, rep, config="cxx-lib", tag="[c++] ")
